@@ -172,6 +172,9 @@ func GenShapedScenario(r *rand.Rand, masterIsA bool, na, nb int, withDefer bool)
 			if r.Intn(4) == 0 {
 				m.Files = []FileSpec{{Name: "f.bin", Data: genBytes(r, r.Intn(200), 0)}}
 			}
+			if i%2 == 0 { // extension fields of the application's own: part of the message
+				m.Extra = [][2]string{{"X-Location", "60.1N 5.3E (GPS)"}, {"X-Source", from}}
+			}
 			m.Shape = fmt.Sprintf("body[%d] files[%d]", len(m.Body), len(m.Files))
 			c, err := m.Canonical()
 			if err != nil {
